@@ -92,10 +92,10 @@ fn main() {
     let capid = if quick { 400_000 } else { 20_000_000 };
     ctx.run_slice(Slice::new(format!("identity-functors[{} first {}]", specid.name(), capid.min(uid.count())), uid.count().min(capid), |i, loc| check_identity_functors::<B>(&uid.get_open(i), loc)));
     // functoriality on pairs
-    let specp = if quick { Spec::open(2, 1, 1, 2, 1, 1, 1) } else { Spec::open(2, 1, 2, 2, 2, 1, 1) };
+    let specp = if quick { Spec::open(2, 1, 1, 2, 1, 1, 1) } else { Spec::open(2, 1, 1, 2, 2, 1, 1) };
     let up = specp.universe().all_open();
     let np = up.len() as u64;
-    let tfs_f: Vec<TF> = if quick { vec![TF { n: [2, 0, 1], recipe: 0 }, TF { n: [1, 2, 1], recipe: 1 }, TF { n: [2, 1, 1], recipe: 2 }] } else { tfs.clone() };
+    let tfs_f: Vec<TF> = if quick { vec![TF { n: [2, 0, 1], recipe: 0 }, TF { n: [1, 2, 1], recipe: 1 }, TF { n: [2, 1, 1], recipe: 2 }] } else { tfs.iter().cloned().step_by(3).collect() };
     ctx.run_slice(Slice::new(format!("functoriality[{}^2 x {} functors]", specp.name(), tfs_f.len()), np * np, |i, loc| {
         for tf in &tfs_f {
             loc.more_cases(1);
